@@ -62,7 +62,9 @@ func makeModularUnsorted(r *rand.Rand, m *openfgav1.AuthorizationModel) {
 		td.Metadata.Module = mods[r.Intn(len(mods))]
 		td.Metadata.SourceInfo = &openfgav1.SourceInfo{File: fmt.Sprintf("f%d.fga", r.Intn(3))}
 	}
-	r.Shuffle(len(m.TypeDefinitions), func(a, b int) { m.TypeDefinitions[a], m.TypeDefinitions[b] = m.TypeDefinitions[b], m.TypeDefinitions[a] })
+	r.Shuffle(len(m.TypeDefinitions), func(a, b int) {
+		m.TypeDefinitions[a], m.TypeDefinitions[b] = m.TypeDefinitions[b], m.TypeDefinitions[a]
+	})
 }
 
 func checkPurity(run *core.Run, m *openfgav1.AuthorizationModel) {
@@ -187,7 +189,9 @@ func checkObjectReuse(run *core.Run, r *rand.Rand, m *openfgav1.AuthorizationMod
 				what = "added a parent type to " + td.GetType() + "#p"
 			}
 		case 4: // reorder the type definitions
-			r.Shuffle(len(m.TypeDefinitions), func(i, j int) { m.TypeDefinitions[i], m.TypeDefinitions[j] = m.TypeDefinitions[j], m.TypeDefinitions[i] })
+			r.Shuffle(len(m.TypeDefinitions), func(i, j int) {
+				m.TypeDefinitions[i], m.TypeDefinitions[j] = m.TypeDefinitions[j], m.TypeDefinitions[i]
+			})
 			what = "shuffled type_definitions"
 		}
 		if what == "" {
